@@ -3,7 +3,11 @@
 Space (exhaustive): for every field that the property names as validated, of RTFPage, RTFBody,
 RTFColumnHeader, RTFFootnote, RTFSource, RTFTitle, RTFSubline, RTFPageHeader, RTFPageFooter and
 RTFFigure: every member of a fixed list of invalid values of the field's kind (unknown keyword,
-wrong-case keyword, 0, -1, -0.5, font 0 / 11 / -1, margin lists of length 0/1/5/7/12; thorough: also
+wrong-case keyword, 0, -1, -0.5, font 0 / 11 / -1, margin lists of length 0/1/5/7/12; values that are legal for a
+SIBLING field but not here (text vs cell justification letters, horizontal vs vertical alignment words, border styles
+vs format letters vs colours, font size vs font number, the keyword sets of the placement-like fields); near-miss
+strings built from a legal value (trailing / leading newline, CRLF, blank, tab, NUL, repetition, upper / title case,
+Unicode look-alike, '' where not legal); thorough: also
 padded / upper-case / near-miss keywords, -0.0, -1e-9, -100, margin lengths 2/3/4/8) at every
 position of every shape {scalar, list of 1..3, 2x2 matrix, 1x3 matrix} (thorough: also 3x1 and 2x3),
 all other positions holding valid values - rotated members of the legal set and, where '' is a legal "no value"
@@ -48,7 +52,8 @@ KINDS = {
     "colour": {"valid": ["red", "blue", "gray50"], "invalid": ["notacolour", "Red", "grey101"]},
     "font": {"valid": [1, 4, 9, 10], "invalid": [0, 11, -1]},
     "format": {"valid": ["b", "", "i", "bi"], "invalid": ["x", "B", "bx"]},
-    "just": {"valid": ["l", "c", "r"], "invalid": ["x", "L", "left"]},
+    "textjust": {"valid": ["l", "c", "r", "j"], "invalid": ["x", "L", "left"]},       # text_justification: l c r j d
+    "celljust": {"valid": ["l", "c", "r"], "invalid": ["x", "L", "left"]},            # cell_justification (row alignment): l c r only
     "valign": {"valid": ["top", "center", "bottom"], "invalid": ["middle", "Top", "x"]},
     "orientation": {"valid": ["portrait", "landscape"], "invalid": ["Portrait", "LANDSCAPE", "diagonal", ""]},
     "placement": {"valid": ["first", "last", "all"], "invalid": ["First", "middle", "none", ""]},
@@ -66,13 +71,99 @@ KINDS = {
 # further members of the same kinds, thorough tier only
 EXTRA_INVALID = {
     "border": [" single", "SINGLE", "none", "single "], "colour": ["RED", "red ", "gray101", "light blue"],
-    "font": [12, 100, -10], "format": ["bB", "bold", "*", "b "], "just": ["C", "centre", "lr", " l"],
+    "font": [12, 100, -10], "format": ["bB", "bold", "*", "b "], "textjust": ["C", "centre", "lr", " l"], "celljust": ["C", "centre", "lr", " l"],
     "valign": ["BOTTOM", "centre", "middle "], "orientation": ["landscape ", "Landscape", "l"],
     "placement": ["ALL", "every", "first "], "pageby_row": ["first-row", "firstrow", "COLUMN"],
     "fig_align": ["LEFT", "centre", "l"], "fig_pos": ["AFTER", "below", "after "],
     "posfloat": [-0.0, -100, -1e-9], "pagedim": [-0.0, -100, -1e-9], "posint": [-2, -100], "fontsize": [-0.0, -100, -1e-9],
     "margin": [[1, 1], [1, 1, 1], [1, 1, 1, 1], [1] * 8],
 }
+
+
+# --------------------------------------------------------------------------- derived invalid values
+# Two further classes of invalid value are DERIVED from the legal sets instead of being listed by hand:
+#  * sibling values - legal for a related field, illegal here (text vs cell justification letters, horizontal vs vertical
+#    alignment words, border styles vs format letters vs colour names, font numbers vs font sizes, the keyword sets of
+#    page_title / pageby_row / fig_pos / orientation): a validator that consults the wrong table accepts exactly these;
+#  * near-miss strings built from a legal value - trailing / leading "\n", "\r\n", blank, tab, NUL, the value repeated,
+#    upper / title case, a Unicode look-alike letter, and '' where '' is not legal: a validator that matches loosely
+#    (regex '$', strip(), lower(), startswith) accepts exactly these.
+# rtflite documents no normalisation of these keywords, so every one of them must be rejected up front.
+BORDER_STYLES = ["single", "double", "thick", "dotted", "dashed", "small-dash", "dash-dotted", "dash-dot-dotted", "triple", "wavy",
+                 "double-wavy", "striped", "embossed", "engraved", "frame", ""]
+LEGAL_LIST = {
+    "border": BORDER_STYLES, "format": ["b", "i", "u", "s", "^", "_", "bi", ""], "colour": ["red", "blue", "gray50", ""],
+    "textjust": ["l", "c", "r", "j", "d", ""], "celljust": ["l", "c", "r", ""],
+    "valign": ["top", "center", "bottom", "merge_first", "merge_rest", ""], "fig_align": ["left", "center", "right"],
+    "orientation": ["portrait", "landscape"], "placement": ["first", "last", "all"], "pageby_row": ["column", "first_row"],
+    "fig_pos": ["before", "after"], "font": list(range(1, 11)), "fontsize": [9, 12, 8, 7.5],
+}
+FAMILIES = [["celljust", "textjust", "valign", "fig_align"], ["border", "format", "colour"], ["font", "fontsize"],
+            ["placement", "pageby_row", "fig_pos", "orientation"]]
+LOOKALIKE = {"a": "\u0430", "c": "\u0441", "e": "\u0435", "i": "\u0456", "o": "\u043e", "p": "\u0440", "s": "\u0455", "l": "\u04cf",
+             "r": "\u0433", "b": "\uff42", "t": "\uff54", "f": "\uff46", "d": "\u0501", "g": "\u0261", "j": "\u0458", "^": "\u02c6", "_": "\uff3f"}
+_COLOURS = None
+
+
+def is_legal(kind: str, v) -> bool:
+    """The documented legal set of the kind, restated (colours: the frozen table data/colors.json)."""
+    global _COLOURS
+    if kind == "format":
+        return isinstance(v, str) and all(ch in "bius^_" for ch in v)
+    if kind == "colour":
+        if _COLOURS is None:
+            import json
+            with open(os.path.join(os.path.dirname(os.path.dirname(os.path.dirname(os.path.abspath(__file__)))), "data", "colors.json")) as f:
+                _COLOURS = set(json.load(f)["names"])
+        return v == "" or v in _COLOURS
+    if kind == "fontsize":
+        return isinstance(v, (int, float)) and v > 0
+    return v in LEGAL_LIST[kind]
+
+
+def sibling_values(kind: str) -> list:
+    out = []
+    for fam in FAMILIES:
+        if kind in fam:
+            for sib in fam:
+                if sib != kind:
+                    out += [v for v in LEGAL_LIST[sib] if not is_legal(kind, v) and v not in out]
+    return out
+
+
+def near_misses(kind: str) -> list:
+    if kind not in LEGAL_LIST or kind in ("font", "fontsize"):
+        return []
+    bases = [v for v in KINDS[kind]["valid"] if v != ""][:2]
+    out = []
+    for b in bases[:1] + ([bases[1]] if kind == "format" and len(bases) > 1 else []):
+        look = next((b.replace(ch, LOOKALIKE[ch], 1) for ch in b if ch in LOOKALIKE), None)
+        out += [b + "\n", "\n" + b, b + "\r\n", b + "\x00", b + " ", b + b, look, " " + b, b + "\t", b.upper(), b.title()]
+    out += ["\n", "", " "]
+    res = []
+    for v in out:
+        if v is not None and not is_legal(kind, v) and v not in res:
+            res.append(v)
+    return res
+
+
+def invalid_values(kind: str, thorough: bool, seed: int = 0) -> list:
+    """[(value, why)] - hand-listed, sibling and near-miss values; the quick tier takes the first 3 of each derived list plus 1
+    more rotated by the seed (the lists are ordered most-confusable first), the thorough tier takes everything."""
+    out = [(v, "listed") for v in KINDS[kind]["invalid"]]
+    for why, vals in (("sibling", sibling_values(kind)), ("near-miss", near_misses(kind))):
+        if not thorough and len(vals) > 4:
+            rest = vals[3:]
+            vals = vals[:3] + [rest[seed % len(rest)]]
+        out += [(v, why) for v in vals]
+    if thorough:
+        out += [(v, "listed") for v in EXTRA_INVALID[kind]]
+    seen, res = [], []
+    for v, why in out:
+        if repr(v) not in seen:
+            seen.append(repr(v))
+            res.append((v, why))
+    return res
 
 SHAPES = {"scalar": None, "list1": (1,), "list2": (2,), "list3": (3,), "m2x2": (2, 2), "m1x3": (1, 3),
           "m3x1": (3, 1), "m2x3": (2, 3)}
@@ -81,12 +172,12 @@ ALL_SHAPES = QUICK_SHAPES + ("m3x1", "m2x3")
 MATRIX = ("m2x2", "m1x3", "m3x1", "m2x3")
 
 TEXT_FIELDS = {"text_font": "font", "text_format": "format", "text_font_size": "fontsize", "text_color": "colour",
-               "text_background_color": "colour", "text_justification": "just"}
+               "text_background_color": "colour", "text_justification": "textjust"}
 TABLE_FIELDS = dict(TEXT_FIELDS)
 TABLE_FIELDS.update({f"border_{s}": "border" for s in ("left", "right", "top", "bottom", "first", "last")})
 TABLE_FIELDS.update({f"border_color_{s}": "colour" for s in ("left", "right", "top", "bottom", "first", "last")})
 TABLE_FIELDS.update({"border_width": "posint", "cell_height": "posfloat", "col_rel_width": "posfloat",
-                     "cell_justification": "just", "cell_vertical_justification": "valign"})
+                     "cell_justification": "celljust", "cell_vertical_justification": "valign"})
 PAGE_FIELDS = {"orientation": "orientation", "width": "pagedim", "height": "pagedim", "col_width": "pagedim", "nrow": "posint",
                "border_first": "border", "border_last": "border", "page_title": "placement", "page_footnote": "placement",
                "page_source": "placement", "margin": "margin"}
@@ -122,7 +213,7 @@ def npos(shape: str) -> int:
 # default of several fields) - and rtflite's code tables also list '' for justification and vertical alignment.
 # An invalid value must be rejected also when its neighbours are such empty entries (a validator that skips or stops
 # at '' is the classic slip), so the empty spelling is placed before / after / all around the invalid value.
-EMPTY = {"colour": "", "border": "", "format": "", "just": "", "valign": ""}
+EMPTY = {"colour": "", "border": "", "format": "", "textjust": "", "celljust": "", "valign": ""}
 EMPTY_DOCUMENTED = ("colour", "border", "format")       # for the others the empty neighbour is explored only if its twin constructs
 SCHEMES = ("empty-others", "empty-prev", "empty-next")
 _KEEP = object()
@@ -298,6 +389,8 @@ def eval_field(case: dict) -> dict:
     cnt["invalid-kind-" + kind] = 1
     if scheme:
         cnt["invalid-with-" + scheme] = 1
+    if case.get("why"):
+        cnt["invalid-" + case["why"] + "-value"] = 1
     if shape in MATRIX and case["pos"] > 0:
         cnt["invalid-inner-matrix-position"] = 1
     sample = None
@@ -430,10 +523,11 @@ def eval_case(case: dict) -> dict:
 # --------------------------------------------------------------------------- enumeration
 
 
-def field_cases(comp, fields, all_shapes, rots, extra=False):
+def field_cases(comp, fields, all_shapes, rots, extra=False, seed=0):
     ctl, bad = [], []
     for field, kind in fields.items():
         nvalid = len(KINDS[kind]["valid"])
+        inv = invalid_values(kind, extra, seed)
         for shape, required in shapes_of(comp, field, all_shapes):
             base = {"comp": comp, "field": field, "kind": kind, "shape": shape}
             if not required:
@@ -442,15 +536,17 @@ def field_cases(comp, fields, all_shapes, rots, extra=False):
                 ctl.append({**base, "rot": rot, "ctl": True})
             for rot in rots:
                 for pos in range(npos(shape)):
-                    for b in KINDS[kind]["invalid"] + (EXTRA_INVALID[kind] if extra else []):
-                        bad.append({**base, "rot": rot % nvalid, "pos": pos, "bad": b})
+                    for b, why in inv:
+                        bad.append({**base, "rot": rot % nvalid, "pos": pos, "bad": b, **({} if why == "listed" else {"why": why})})
                     for scheme in schemes_at(kind, shape, pos):
                         sbase = dict(base)
                         if kind not in EMPTY_DOCUMENTED:
                             sbase["required"] = False
                         ctl.append({**sbase, "rot": rot % nvalid, "pos": pos, "scheme": scheme, "ctl": True})
-                        for b in KINDS[kind]["invalid"] + (EXTRA_INVALID[kind] if extra else []):
-                            bad.append({**sbase, "rot": rot % nvalid, "pos": pos, "bad": b, "scheme": scheme})
+                        for b, why in inv:
+                            if why == "listed" or extra:      # derived values with the empty-neighbour schemes: thorough only
+                                bad.append({**sbase, "rot": rot % nvalid, "pos": pos, "bad": b, "scheme": scheme,
+                                            **({} if why == "listed" else {"why": why})})
     # distinct (rot % nvalid may collide for short valid lists)
     seen, out = set(), []
     for c in bad:
@@ -538,6 +634,11 @@ def plan(run):
         "a single RTFBody given with a list of DataFrames, or a list of bodies with a single DataFrame, is not a 'mismatched list "
         "length' in the sense of the property (an implementation may broadcast) and is not demanded",
         "for a missing figure file both FileNotFoundError and ValueError are accepted",
+        "legal sets restated in this module: text_justification l c r j d (and ''), cell_justification l c r (and '') - 'j' and 'd' are "
+        "text-only; vertical alignment top center bottom merge_first merge_rest; the 15 border style names; format = any string over "
+        "b i u s ^ _; colours = the frozen table data/colors.json. rtflite documents no normalisation (case folding, stripping) of these "
+        "keywords, so near-miss spellings (trailing newline, padding, NUL, repetition, other case, Unicode look-alikes) must be rejected "
+        "by the constructor - 'accepted and later refused by rtf_encode()' counts as accepted",
         "matrix shapes for the text components (title, subline, page header/footer) and for col_rel_width are explored only where "
         "the valid twin constructs (they are admitted by the declared type but not documented)",
     ]
@@ -551,7 +652,7 @@ def plan(run):
         groups.append((c, f))
     groups.append(("RTFFigure", {"fig_align": "fig_align", "fig_pos": "fig_pos"}))
     for comp, fields in groups:
-        c, b = field_cases(comp, fields, all_shapes, rots, extra=thorough)
+        c, b = field_cases(comp, fields, all_shapes, rots, extra=thorough, seed=run.seed)
         ctl_all += c
         bad_all += b
     dctl, dbad = doc_cases(thorough)
@@ -567,7 +668,7 @@ def plan(run):
     need = ["control-constructed", "rejected-ValueError", "rejected-FileNotFoundError", "invalid-inner-matrix-position",
             "invalid-scalar", "invalid-list3", "invalid-m2x2", "invalid-m1x3"]
     need += ["invalid-kind-" + k for k in KINDS] + ["invalid-with-" + x for x in SCHEMES]
-    need += ["invalid-doc-with-other-fields-set"]
+    need += ["invalid-doc-with-other-fields-set", "invalid-sibling-value", "invalid-near-miss-value"]
     need += ["invalid-doc-" + r for r in ("figure-missing", "group-missing", "new-page", "df-and-figure", "neither", "section-length")]
     for n in need:
         if not run.cnt.get(n):
